@@ -71,7 +71,7 @@ def gen_particles(r, L, n, vscale, zero_r_frac, equal_r):
                 q['x'] += L * 1e-7 * r.uniform(-1, 1)
             vs = vscale * r.choice([0.0, 1.0, 1.0, 10.0])
             q.update(vx=r.uniform(-1, 1) * vs, vy=r.uniform(-1, 1) * vs, vz=r.uniform(-1, 1) * vs)
-            q['m'] = r.choice([1.0, 1e-3, 10 ** r.uniform(-8, 0)])
+            q['m'] = r.choice([1.0, 1e-3, 10 ** r.uniform(-8, 0), 0.0])
             ps.append(q)
     return ps
 
@@ -311,6 +311,10 @@ def run_case(case):
                         add('merge:removes-lower-index', '%s: outcome %d for indices %d,%d' % (desc, e['out'], e['p1'], e['p2']))
                     bm = b1[7] + b2[7]
                     surv = (a1, a2)[lo_]
+                    if bm == 0:
+                        counters['massless_merges'] = counters.get('massless_merges', 0) + 1
+                    if any(x != x for x in surv):
+                        add('merge:nan-after-merge', '%s: masses %r %r: merged particle %r' % (desc, b1[7], b2[7], surv))
                     sc = max(abs(b1[7]), abs(b2[7]), 1e-300)
                     if abs(surv[7] - bm) > 8 * EPS * sc:
                         add('merge:mass-not-conserved', '%s: %r + %r -> %r' % (desc, b1[7], b2[7], surv[7]))
@@ -331,6 +335,11 @@ def run_case(case):
                     any_removal = True
                 elif resolver == 'hardsphere' and (a1 != b1 or a2 != b2):
                     counters['bounces'] += 1
+                    if b1[7] + b2[7] == 0:
+                        counters['massless_bounces'] = counters.get('massless_bounces', 0) + 1
+                    if any(x != x for w in (a1, a2) for x in w):
+                        add('hardsphere:nan-after-bounce', '%s: masses %r %r: state after the bounce %r %r' % (desc, b1[7], b2[7], a1, a2))
+                        continue
                     mt = b1[7] + b2[7]
                     if mt > 0:
                         for k in range(3):
